@@ -104,6 +104,10 @@ pub struct MapSpec {
     pub jitter: u8,
     /// the object list is a motif that is repeated this many times (0 and 1 = once): long periodic maps
     pub repeat: u32,
+    /// stream style bits: 1 = the stream starts 100 ms after the last object's *start* (overlapping a long slider /
+    /// spinner) instead of 400 ms after its end; 2 = every 4th stream note carries a finish, every 4th+2 a clap;
+    /// 4 = the stream is stacked on one spot
+    pub stream_style: u8,
 }
 
 /// Gaps >= END_REL are measured from the previous object's *end*: gap - END_REL ms after it.
@@ -122,6 +126,7 @@ impl MapSpec {
             stream: (0, 0),
             jitter: 0,
             repeat: 1,
+            stream_style: 0,
         }
     }
 
@@ -231,14 +236,17 @@ impl MapSpec {
             }
         }
         if self.stream.0 > 0 {
-            let mut st = prev_end.max(t) + 400;
+            let mut st = if self.stream_style & 1 != 0 { t + 100 } else { prev_end.max(t) + 400 };
             for i in 0..self.stream.0 {
                 let (sx, sy) = if self.mode == 3 {
                     (((f64::from(i % keys) + 0.5) * 512.0 / f64::from(keys)).floor() as i32, 192)
+                } else if self.stream_style & 4 != 0 {
+                    (300, 200)
                 } else {
                     (40 + (i as i32 * 67) % 430, 40 + (i as i32 * 41) % 300)
                 };
-                let _ = writeln!(s, "{sx},{sy},{st},1,0");
+                let snd = if self.stream_style & 2 != 0 { [4, 0, 8, 0][i as usize % 4] } else { 0 };
+                let _ = writeln!(s, "{sx},{sy},{st},1,{snd}");
                 st += i64::from(self.stream.1);
             }
         }
